@@ -167,6 +167,36 @@ class Linear(Family):
 # ---------------------------------------------------------------------------------------------------------
 # quadratic
 # ---------------------------------------------------------------------------------------------------------
+@cut("quad.area")
+def quad_area(cut_id, widths, unnorm_heights_exp, unnormalized_area):
+    """bin widths are positive and sum to one, unnormalised knot heights are positive, and `unnormalized_area` is the trapezoid area
+    A = sum_k (u_k + u_{k+1})/2 * w_k > 0; afterwards these are symbols of their own (the softmax / softplus definitions are forgotten)"""
+    ctx = C()
+    K = widths.shape[-1]
+
+    def facts(w, u, A):
+        f = [(f"w{k}>0", w[k] > 0) for k in range(K)] + [(f"u{j}>0", u[j] > 0) for j in range(K + 1)]
+        f.append(("sum-w", sum(w[1:], w[0]) == 1))
+        f.append(("area", A[0] == sum((((u[k] + u[k + 1]) / 2) * w[k] for k in range(1, K)), ((u[0] + u[1]) / 2) * w[0])))
+        f.append(("area>0", A[0] > 0))
+        return f
+    ts = (widths, unnorm_heights_exp, unnormalized_area)
+    if unnorm_heights_exp.shape[-1] != K + 1:
+        return ts
+    outs = [np.empty(t.shape, dtype=object) for t in ts]
+    for idx in np.ndindex(*widths.shape[:-1]):
+        real = [list(P(t)[idx]) for t in ts]
+        flat = [x for r in real for x in r]
+        fr, new = memo_cut(ctx, cut_id, flat, lambda: [[fresh(n) for _ in r] for n, r in zip(("aw", "au", "aA"), real)])
+        if new:
+            for nm, f in facts(*real):
+                ctx.oblige("cut-lemma", f, label=f"{cut_id}.{nm}")
+            ctx.hard_cut([(a, b) for frs, rs in zip(fr, real) for a, b in zip(frs, rs)], [f for _, f in facts(*fr)])
+        for o, v in zip(outs, fr):
+            o[idx] = v
+    return tuple(Sym.make(o, t.dtype) for o, t in zip(outs, ts))
+
+
 @cut("quad.knots")
 def quad_knots(cut_id, widths, heights, bin_left_cdf, bin_locations):
     """widths > 0, heights > 0; locations 0 = l_0 < ... < l_K = 1 with l_{k+1} - l_k = w_k; cdf 0 = c_0, c_K = 1,
@@ -250,6 +280,7 @@ class Quadratic(Family):
     name = "quadratic"
     func = staticmethod(quadmod.quadratic_spline)
     cuts = [
+        ("unnormalized_area", "quad.area", ["widths", "unnorm_heights_exp", "unnormalized_area"], []),
         ("bin_locations", "quad.knots", ["widths", "heights", "bin_left_cdf", "bin_locations"], []),
         ("c", "quad.bin", ["a", "b", "c", "input_bin_locations", "input_bin_widths", "input_left_heights", "input_right_heights"], ["inputs", "inverse"]),
         ("alpha#0", "quad.root", ["alpha"], ["inputs"]),
